@@ -218,7 +218,7 @@ func (met *cff2CharstringHandler) blend(state *ps.Machine) error {
 	}
 	n := int32(state.ArgStack.Pop())
 	k := int32(len(met.scalars))
-	if state.ArgStack.Top < n*(k+1) {
+	if n < 0 || state.ArgStack.Top < n*(k+1) {
 		return errors.New("missing arguments for blend operator")
 	}
 
